@@ -97,6 +97,7 @@ func newInst(p params) *inst {
 }
 
 var stepClock int
+var prodNames = []string{"prod0", "prod1", "prod2", "prod3", "prod4", "prod5"}
 
 func (in *inst) Body() {
 	p := in.p
@@ -105,7 +106,7 @@ func (in *inst) Body() {
 		interval = time.Millisecond
 	}
 	mcrt.DaemonNext = true
-	dw := diode.NewWriter(recWriter{in}, p.N, interval, func(missed int) { in.alerts = append(in.alerts, missed); in.bump(4, fmt.Sprint(missed)) })
+	dw := diode.NewWriter(recWriter{in}, p.N, interval, func(missed int) { in.alerts = append(in.alerts, missed); in.bump(4+uint64(missed)*16, "") })
 	mcrt.DaemonNext = false
 	var logger zerolog.Logger
 	if p.End == "fatal" {
@@ -114,7 +115,7 @@ func (in *inst) Body() {
 	clock := 0
 	for pi := 0; pi < p.P; pi++ {
 		pi := pi
-		mcrt.GoNamed(fmt.Sprintf("prod%d", pi), false, func() {
+		mcrt.GoNamed(prodNames[pi], false, func() {
 			for w := 0; w < p.W; w++ {
 				m := msgOf(pi, w)
 				in.written = append(in.written, m)
@@ -135,7 +136,7 @@ func (in *inst) Body() {
 				}
 			}
 			in.prodDone[pi] = true
-			in.bump(6, fmt.Sprint(pi))
+			in.bump(6+uint64(pi)*16, "")
 		})
 	}
 	mcrt.Block("join", nil, func() bool {
